@@ -689,7 +689,7 @@ class PE:
         if r is not NotImplemented:
             return r
         callee = self.F.fns.get(res)
-        if self.inline and callee is not None and fn.get("krate") == self.F.data["crate"] and callee.get("thir"):
+        if self.inline and callee is not None and callee.get("thir"):
             return self.call_fn(res, args)
         # tuple-struct / enum-variant constructor used as a function
         ctor = self._ctor(res, args)
